@@ -103,12 +103,20 @@ def has_word(line, word):
 # ------------------------------------------------------------------------------------ check
 
 
+CONST_AT = {}  # kind "consts": {file: {constant name: line of its declarator}} of the case being judged
+
+
 def build(case):
     """-> files {name: text}, truths {name: [Truth]}, runs {name: (first, last, [lines])}, config"""
     lang = case["lang"]
     if case["kind"] == "dry":
         files, runs = pr.dry_files(lang, 301, case["nfiles"], case["n"], case["noise"])
         return files, {k: [] for k in files}, runs, {"dry": {"enabled": True}}
+    if case["kind"] == "consts":
+        files, at = pr.const_files(lang, 301, case["nfiles"], case["forms"], case["lead"])
+        CONST_AT.clear()
+        CONST_AT.update(at)
+        return files, {k: [] for k in files}, {}, {"dry": {"enabled": True}}
     if case["kind"] == "stringly":
         files = {}
         for k, (name, text) in enumerate(seeds.stringly_set(lang, 301, case["nfiles"]).items()):
@@ -208,6 +216,19 @@ def judge(v, files, truths, runs, lang, p_root):
                     if not (1 <= a <= len(ol)) or ol[a - 1].strip() != src.strip():
                         out.append((f"{lang}|{rule}|not-first-line-of-block", {"line_text": src, "twin": m.group(0), "twin_line_text": ol[a - 1] if 1 <= a <= len(ol) else None}))
                         break
+    elif fam == "dry" and rel in CONST_AT and quoted:
+        # "Duplicate constant 'X' ..." / "Similar constants found: 'X' ~ 'Y' ...": at the declarator of a named constant,
+        # and every "file:line" it refers to is the declarator of a named constant there
+        names = [q for q in quoted if q in CONST_AT[rel]]
+        if not names or L not in {CONST_AT[rel][q] for q in names}:
+            out.append((f"{lang}|{rule}|constant|not-the-declarator-line|reported-{line_class(src)}", {"declarators": CONST_AT[rel], "line_text": src}))
+        else:
+            labels.append("dry=checked")
+        for m in re.finditer(r"([\w./-]+\.(?:py|ts|js)):(\d+)", msg):
+            other = os.path.basename(m.group(1))
+            if other in CONST_AT and int(m.group(2)) not in CONST_AT[other].values():
+                out.append((f"{lang}|{rule}|constant|reference-not-a-declarator-line", {"reference": m.group(0), "declarators": CONST_AT[other]}))
+                break
     elif mine:
         at = [t for t in mine if t.rel == L]
         matched = at[0] if at else None  # families whose line the statement does not fix: only the generic clause applies
@@ -311,7 +332,16 @@ def cases(draw):
             "final_nl": draw(st.sampled_from([True, True, False])), "cmds": cmds}
 
 
+def const_cells():
+    """DRY's duplicate-constant findings: language x declaration layout of each of two files x leading comment lines."""
+    return [{"kind": "consts", "lang": lang, "nfiles": 2, "forms": [f0, f1], "lead": lead, "cmds": ["dry"]}
+            for lang in ("py", "ts", "js") for f0 in range(4) for f1 in range(4) for lead in ([0, 2], [3, 0])]
+
+
 def run(ctx):
+    mine = ctx.my_cells(const_cells())
+    done = ctx.each(mine, check)
+    ctx.stats.extra.setdefault("matrix", {})["duplicate constants: language x declaration layout x layout x leading lines"] = {"cells": len(mine), "done": done}
     ctx.explore(cases(), check, max_examples=ctx.n(220, 3000))
 
 
